@@ -253,7 +253,6 @@ static void c03_t81_print(struct jpeg_decompress_struct *d, jvirt_barray_ptr *ar
 {
   int ci, k;
   if (got) got[0] = 0;
-  if (d->arith_code) { printf("R skip arith\n"); return; }
   printf("R ok P%d %ux%u nc%d prog%d ri%u scans%d |", d->data_precision, d->image_width, d->image_height, d->num_components, d->progressive_mode ? 1 : 0, d->restart_interval, d->input_scan_number);
   for (ci = 0; ci < d->num_components; ci++) {
     jpeg_component_info *cp = &d->comp_info[ci]; JDIMENSION by, bx; unsigned long long h = 14695981039346656037ULL, hq = 14695981039346656037ULL;
@@ -289,7 +288,7 @@ static int c03_t81(toks_t *t)
   jpeg_read_header(&d, TRUE);
   arr = jpeg_read_coefficients(&d);
   c03_t81_print(&d, arr, e.nwarn, got, sizeof(got));
-  if (withexp && !d.arith_code) {
+  if (withexp) {
     if (strcmp(got, expect)) printf("O fail t81c: libjpeg-turbo decoded coefficient digests %s from a conforming stream whose writer put in %s\n", got, expect);
     else if (e.nwarn) printf("O fail t81c: libjpeg-turbo warned %d times on a conforming stream\n", e.nwarn);
     else printf("O ok\n");
